@@ -421,7 +421,27 @@ func TestVerifC17Inputs(t *testing.T) {
 				}
 				get, getBody := do("GET")
 				head, _ := do("HEAD")
+				// the same handler serves a GET again after the HEAD: nothing of the HEAD may stick to it
+				get2, get2Body := do("GET")
 				srv.Close()
+				dec := func(r *http.Response, raw []byte) []byte {
+					if r.Header.Get("Content-Encoding") != "gzip" {
+						return raw
+					}
+					zr, err := stdgzip.NewReader(bytes.NewReader(raw))
+					if err != nil {
+						return []byte("<not a gzip stream: " + err.Error() + ">")
+					}
+					out, err := io.ReadAll(zr)
+					if err != nil {
+						return []byte("<gzip stream cut off after " + fmt.Sprint(len(out)) + " bytes: " + err.Error() + ">")
+					}
+					return out
+				}
+				if get2.StatusCode != get.StatusCode || get2.Header.Get("Content-Encoding") != get.Header.Get("Content-Encoding") || !bytes.Equal(dec(get2, get2Body), body) || !bytes.Equal(dec(get, getBody), body) {
+					L.Violation("get-after-head-on-one-handler-differs", map[string]interface{}{"history": "GET, HEAD, GET through one handler", "accept_encoding": ae, "content_type": ct, "upstream_body_bytes": len(body),
+						"first_get": fmt.Sprint(get.StatusCode, " ", get.Header.Get("Content-Encoding"), " ", len(getBody), " bytes on the wire"), "second_get": fmt.Sprint(get2.StatusCode, " ", get2.Header.Get("Content-Encoding"), " ", len(get2Body), " bytes on the wire"), "second_get_decoded_prefix": string(dec(get2, get2Body)[:min(60, len(dec(get2, get2Body)))])})
+				}
 				L.Case()
 				L.NontrivialKey(fmt.Sprint("head", ct, ae, size))
 				d := map[string]interface{}{"request": "HEAD", "accept_encoding": ae, "content_type": ct, "upstream_content_length": len(body),
